@@ -14,7 +14,7 @@ for fn in [os.path.join(ROOT, "known_findings.json")] + sorted(glob.glob(os.path
         if f.get("status") == "known":
             known.append("| %s | `%s` | %s |" % (f["property"], f["key"], f["what"].replace("|", "\\|")[:400]))
 known_tbl = "\n".join(["| property | key | what fails |", "|---|---|---|"] + known)
-rows = ["| seeded change | breaks | what it needs to manifest | confirmed (suite 87/87, demo) | caught by quick check |", "|---|---|---|---|---|"]
+rows = ["| seeded change | breaks | what it needs to manifest | confirmed (suite 87/87, demo) | caught by quick check (checks as committed now) | checks as they were BEFORE the change was written (waves f, g) |", "|---|---|---|---|---|---|"]
 for sd in sorted(glob.glob(os.path.join(ROOT, "seeded", "*"))):
     if not os.path.exists(os.path.join(sd, "meta.json")):
         continue
@@ -22,7 +22,12 @@ for sd in sorted(glob.glob(os.path.join(ROOT, "seeded", "*"))):
     v = json.load(open(os.path.join(sd, "verify.json"))) if os.path.exists(os.path.join(sd, "verify.json")) else {}
     r = json.load(open(os.path.join(sd, "result.json"))) if os.path.exists(os.path.join(sd, "result.json")) else {}
     caught = "; ".join("%s: %s" % (p, "VIOLATION" + (" (no-failing-input-found)" if c.get("violation_line") and "no-failing" in c["violation_line"] else "") if c["exit"] == 1 else "missed") for p, c in r.get("checks", {}).items()) or "not run yet"
-    rows.append("| %s | %s | %s | %s | %s |" % (os.path.basename(sd), m.get("property"), str(m.get("needs", ""))[:260].replace("|", "\\|").replace("\n", " "), "yes" if v.get("confirmed") else "?", caught))
+    pre = ""
+    pp = os.path.join(sd, "result_pre_round6.json")
+    if os.path.exists(pp):
+        rp = json.load(open(pp))
+        pre = "; ".join("%s: %s" % (p_, "VIOLATION" + (" (no-failing-input-found)" if c.get("violation_line") and "no-failing" in c["violation_line"] else "") if c["exit"] == 1 and c.get("violation_line") else ("check crashed (exit 1, no VIOLATION line)" if c["exit"] == 1 else "missed")) for p_, c in rp.get("checks", {}).items())
+    rows.append("| %s | %s | %s | %s | %s | %s |" % (os.path.basename(sd), m.get("property"), str(m.get("needs", ""))[:260].replace("|", "\\|").replace("\n", " "), "yes" if v.get("confirmed") else "?", caught, pre))
 seed_tbl = "\n".join(rows)
 p = os.path.join(ROOT, "DESIGN.md")
 s = open(p).read()
